@@ -160,6 +160,14 @@ CHECKS["C16"] = (
     "DESIGN.md section 4, C16",
 )
 
+CHECKS["C17"] = (
+    "E4-config-enumerator",
+    "exhaustive enumeration of call forms per generated method against its advertised signature, observed through a spy on the wrapper's implementation and on the real method",
+    "For every method generated for every class of the family and for dedicated hosts with nested spec classes (keyed, init=False attribute, overflow attribute; nested as attribute, list element, dict value, KeyedSet element): every single advertised parameter and every pair by keyword, every prefix of positional-or-keyword parameters positionally, one positional too many, and 6 unadvertised names. Through a spy replacing the wrapper's implementation every advertised keyword must arrive under its name with the value given, omitted real parameters with the default the signature shows, omitted virtual parameters absent; on the real method an unadvertised keyword must raise TypeError and leave the receiver observably unchanged; nested keywords must equal the init-enabled attributes of the nested spec class minus its overflow attribute.",
+    "White-box seam: the generated wrapper's module-global `implementation`; sentinel values; a signature ending in **<overflow> advertises arbitrary keywords.",
+    "DESIGN.md section 4, C17",
+)
+
 ENGINES = [
     {"name": "E1-explicit-state", "path": "mc/common.py, props/*.py (explore)", "serves_properties": [],
      "kind_free_text": "breadth-first explicit-state search over the real transition function; a state is the shortest operation history that reaches it, rebuilt by replay; canonical-form deduplication; lock-step reference model"},
